@@ -30,6 +30,8 @@ CLAIMS["C14"] = ("partial, strong: single copy-convert-send exit, length field =
     "value-flow of stores into the message buffer, typestate dataflow, decision cells per violation class, layout tables from DWARF vs RFC tables")
 CLAIMS["C04"] = ("partial: receive-buffer bound (header first, length bounds dominate the payload read, 3248-byte buffers), the complete size table of rtr_pdu_check_size against RFC 8210 (480+ type/version/length cells) and the wire layouts, ordering and width of the nested Error-Report length checks, buffer untouched after a failed receive, framing only through the read/write-until-complete loops and their reaction to every negative result, bounds of the variable-length stack arrays, the temporary PDU stores' capacity invariant, and a classification of all 33 assertions reachable from the receive path (16 discharged by call-site constants / guards / type tests, 17 listed as not decided because they need the trie-depth invariant over histories); termination with user transports and the trie-shape-dependent asserts are not decided",
     "dominating-guard reasoning, decision-table evaluation of the size check, value-flow bounds of VLA sizes, call-site constant propagation for assert discharge")
+CLAIMS["C10"] = ("partial, strong: 16-cell identity table of the comparator incl. memcmp widths, lookup filters and full-copy of results, twin-container discipline of add/remove/removal-by-source under the write lock, one hash function at every hash-table call, return-code/effect table for duplicate and unknown keys, notification discipline incl. removal by source and the reload diff; tommyds internals (linear-hash split/merge) are not decided",
+    "decision tables with opaque memcmp atoms, path-sensitive effect counting and typestate per entry, value flow of hash arguments")
 NA = {}
 def main():
     props = [json.loads(l) for l in open(os.path.join(HERE, "properties.jsonl"))]
